@@ -438,7 +438,7 @@ func safe(s string) string {
 
 func replayOnce(bin, path, tmp string) (replayResult, error) {
 	out := filepath.Join(tmp, fmt.Sprintf("replay-%d.json", time.Now().UnixNano()))
-	o, err := run(root, append(os.Environ(), "GOMAXPROCS=2", "VERIF_REPO=/repo", "GORACE=halt_on_error=0"), bin, "-test.run", "^TestReplay$", "-test.timeout", "10m", "-sim.replay", path, "-sim.out", out)
+	o, err := run(root, append(os.Environ(), "GOMAXPROCS=2", "VERIF_REPO=/repo", "GORACE=halt_on_error=0"), bin, "-test.run", "^TestReplay$", "-test.timeout", "10m", "-sim.replay", path, "-sim.out", out, "-sim.attempts", attemptsFor(path))
 	var rr replayResult
 	b, rerr := os.ReadFile(out)
 	if rerr != nil {
@@ -590,4 +590,13 @@ func determinismCmd(args []string) int {
 	}
 	fmt.Println("deterministic: all digests equal across processes and GOMAXPROCS settings")
 	return 0
+}
+
+// attemptsFor: C11 depends on Go's map iteration order, which has no seam; its replays are
+// repeated (DESIGN.md section 5/C11). Everything else replays exactly, once.
+func attemptsFor(path string) string {
+	if strings.Contains(path, "/C11/") {
+		return "20"
+	}
+	return "1"
 }
